@@ -586,7 +586,7 @@ func checkC05Ledger(c *Check, L *Loaded) {
 	fields := map[string]string{"lhs": "Lhs", "mid": "Mid", "rhs": "Rhs"}
 	// which argument a C concatenation function takes over is read off the C source (takenOverByC), independently of the generator
 	takenOver = map[string][]int{}
-	if P, err := LoadC(repoDir(), true); err == nil {
+	if P, err := LoadC(repoDirC(), true); err == nil {
 		takenOver = takenOverByC(L, P)
 	}
 	c.extra["operands_taken_over_by_c_concat"] = fmt.Sprint(takenOver)
